@@ -74,12 +74,9 @@ def table_kinds():
     cm = ModuleSrc.get(COMMON_PY)
     it2 = Interp(Ctx([]), REGISTRY, None)
     it2.env_over.update(ENV)
+    # the literal plus the conditional module-level statements that extend it (update(...) or item assignment): the engine
+    # applies those when it resolves the name
     conn_tmap = dict(it2.module_name(cm, "conn_tmap"))
-    import ast as _ast
-    fr = Frame(RepoFunc(cm, "<module>", None), {"conn_tmap": conn_tmap})
-    for st in cm.tree.body:      # the conditional conn_tmap.update(...) statements that follow the literal
-        if isinstance(st, _ast.If) and "conn_tmap.update" in _ast.unparse(st):
-            it2.exec(st, fr)
     out.append(("_common.conn_tmap lists the same 11 kinds", set(conn_tmap) == set(DOC_KINDS), str(sorted(conn_tmap))))
     return out
 
